@@ -327,6 +327,43 @@ def h_lsr(ctx, as_elec):
     ctx.eq('T x F/RT does not depend on T', T * call(mode, 'get_FoRT', T=T, P=1.0), T2 * call(mode, 'get_FoRT', T=T2, P=1.0))
 
 
+def h_with_references(ctx):
+    """a species carrying a real References object: G = H - TS and F = U - TS still hold at any T (the reference
+    adjustment enters H and G alike), total = sum of the verbose entries"""
+    from checks.c10 import _refs, _species, RefModel, _install_lstsq
+    _install_lstsq(ctx)
+    T_ref = ctx.real('T_ref', 200, 1500)
+    R, refs, models, exps = _refs(ctx, [{'H': 2}, {'O': 2}], 'elements', T_ref, False)
+    m = RefModel(ctx, 'target')
+    sp = _species(ctx, m, {'H': ctx.real('n_H', 0, 20), 'O': ctx.real('n_O', 0, 20)}, 'elements', R)
+    T = ctx.real('T', 50, 5000)
+    H, S, G = sp.get_HoRT(T=T), sp.get_SoR(T=T), sp.get_GoRT(T=T)
+    ctx.eq('G = H - TS with the reference adjustment included', G, H - S)
+    ctx.eq('G = H - TS without it (use_references=False)', sp.get_GoRT(T=T, use_references=False), sp.get_HoRT(T=T, use_references=False) - S)
+    ctx.eq('the adjustment of G is the adjustment of H', G - sp.get_GoRT(T=T, use_references=False), H - sp.get_HoRT(T=T, use_references=False))
+    for q in ('HoRT', 'GoRT'):
+        tot = getattr(sp, 'get_' + q)(T=T)
+        parts = getattr(sp, 'get_' + q)(T=T, verbose=True)
+        acc = 0
+        for x in parts:
+            acc = acc + x
+        ctx.eq('%s total = sum of the verbose entries (references entry included)' % q, tot, acc)
+
+
+def h_integer_wavenumbers(ctx):
+    """wavenumbers given as Python / NumPy integers with an imaginary mode and a fractional substitute behave as the same
+    numbers given as floats"""
+    import numpy
+    from pmutt.statmech.vib import HarmonicVib
+    sub = ctx.real('imaginary_substitute', 10.25, 99.75)
+    T = ctx.real('T', 50, 5000)
+    for label, w in (('list of int', [-100, 1500]), ('int64 array', numpy.array([-100, 1500])), ('tuple of int', (-100, 1500))):
+        a = HarmonicVib(vib_wavenumbers=w, imaginary_substitute=sub)
+        b = HarmonicVib(vib_wavenumbers=[-100., 1500.], imaginary_substitute=sub)
+        for q in ('get_UoRT', 'get_SoR', 'get_CvoR'):
+            ctx.eq('%s: %s as for float wavenumbers' % (label, q), getattr(a, q)(T=T), getattr(b, q)(T=T))
+
+
 def h_empty(ctx):
     from pmutt.statmech import EmptyMode, ConstantMode
     from pmutt.statmech.nucl import EmptyNucl
@@ -550,6 +587,8 @@ def groups(tier):
     g.append(dict(name='GroundStateElec', harness=h_elec))
     g.append(dict(name='LSR/mode', harness=h_lsr, params=dict(as_elec=False)))
     g.append(dict(name='LSR/as-electronic-model-of-a-species', harness=h_lsr, params=dict(as_elec=True)))
+    g.append(dict(name='StatMech/with-References', harness=h_with_references))
+    g.append(dict(name='HarmonicVib/integer-wavenumbers', harness=h_integer_wavenumbers, timeout_ms=120000))
     g.append(dict(name='Empty+Constant modes', harness=h_empty))
     for n_misc in (0, 1, 2):
         for refs in (False, True):
